@@ -172,6 +172,9 @@ def run_property(prop, tier, seed, shrink=True):
     env.assert_tree()
     mod = _load(prop)
     shards = mod.shards(tier)
+    scale = float(os.environ.get("VERIF_SCALE", "1"))      # development aid only
+    if scale != 1:
+        shards = [dict(s, n=max(1, int(s["n"] * scale))) if "n" in s else s for s in shards]
     ctx = mp.get_context("fork")
     nproc = min(NPROC, max(1, len(shards)))
     maxtasks = getattr(mod, "MAXTASKSPERCHILD", None)
